@@ -215,7 +215,8 @@ pub struct World {
     points: RefCell<Vec<Point>>,
     plan: RefCell<Option<(usize, Vec<Ev>)>>,
     // shadow of pending epoll edges (validated against the real poll result on every turn)
-    edges: RefCell<BTreeSet<usize>>,
+    /// pending edges in the order in which they became pending (= order of the epoll ready list)
+    edges: RefCell<Vec<usize>>,
     pub accept_dead: Cell<bool>,
     pub last_accept_turn: Cell<Option<tokio::time::Instant>>,
     pub start: Cell<Option<tokio::time::Instant>>,
@@ -337,7 +338,7 @@ impl Observer for Obs {
         if w.in_nested.get() {
             // nesting depth 1: no further preemption, but the wake-up that follows still counts
             if point == Point::AfterPush {
-                w.edges.borrow_mut().insert(usize::MAX);
+                w.add_edge(usize::MAX);
             }
             return;
         }
@@ -363,7 +364,7 @@ impl Observer for Obs {
         }
         if point == Point::AfterPush {
             // `mio::Waker::wake` follows immediately: the waker token's edge becomes pending
-            w.edges.borrow_mut().insert(usize::MAX);
+            w.add_edge(usize::MAX);
         }
     }
 
@@ -379,14 +380,7 @@ impl Observer for Obs {
 
     fn poll_tokens(&self, tokens: &[usize]) {
         let w = &self.0;
-        let got: BTreeSet<usize> = tokens.iter().copied().collect();
-        let maybe = std::mem::take(&mut *w.edges.borrow_mut());
-        // a pending listener edge is only reported if the listener is still readable
-        let fds = verif_listener_fds(&w.listener_fds.borrow());
-        let shadow: BTreeSet<usize> = maybe.into_iter().filter(|t| *t == usize::MAX || fds.get(*t).map_or(false, |fd| fd_readable(*fd, 0))).collect();
-        if got != shadow {
-            w.rec(Rec::Machinery(format!("edge shadow {:?} differs from the tokens the real poll returned {:?}", shadow, got)));
-        }
+        w.edges.borrow_mut().clear();
         w.rec(Rec::AcceptTokens(tokens.to_vec()));
     }
 
@@ -411,6 +405,25 @@ fn fd_readable(fd: RawFd, timeout_ms: i32) -> bool {
     let mut p = libc::pollfd { fd, events: libc::POLLIN, revents: 0 };
     let r = unsafe { libc::poll(&mut p, 1, timeout_ms) };
     r > 0 && (p.revents & (libc::POLLIN | libc::POLLHUP | libc::POLLERR)) != 0
+}
+
+/// (fd, event mask, data) of every registration of the epoll instance, from /proc/self/fdinfo/<epfd>
+fn epoll_registrations(epfd: RawFd) -> Vec<(RawFd, u32, u64)> {
+    let mut out = vec![];
+    if let Ok(s) = std::fs::read_to_string(format!("/proc/self/fdinfo/{epfd}")) {
+        for line in s.lines() {
+            if let Some(rest) = line.strip_prefix("tfd:") {
+                let t: Vec<&str> = rest.split_whitespace().collect();
+                // <fd> events: <hex> data: <hex> ...
+                if t.len() >= 5 {
+                    if let (Ok(fd), Ok(mask), Ok(data)) = (t[0].parse::<RawFd>(), u32::from_str_radix(t[2], 16), u64::from_str_radix(t[4], 16)) {
+                        out.push((fd, mask, data));
+                    }
+                }
+            }
+        }
+    }
+    out
 }
 
 /// fds registered with the epoll instance, from /proc/self/fdinfo/<epfd>
@@ -503,6 +516,13 @@ impl World {
         id
     }
 
+    fn add_edge(&self, token: usize) {
+        let mut e = self.edges.borrow_mut();
+        if !e.contains(&token) {
+            e.push(token);
+        }
+    }
+
     pub fn n_clients(&self) -> usize {
         self.clients.borrow().len()
     }
@@ -552,9 +572,30 @@ impl World {
         self.instances.borrow().iter().map(|(k, v)| (*k, *v)).collect()
     }
 
+    /// The tokens the next `mio::Poll::poll` of the accept loop would return, in order: read from
+    /// the real epoll instance (a zero-timeout `epoll_wait`), then put back by re-arming each
+    /// consumed edge-triggered registration with `EPOLL_CTL_MOD` in the same order.
     pub fn edges(&self) -> Vec<usize> {
-        let fds = self.listener_fds.borrow();
-        self.edges.borrow().iter().copied().filter(|t| *t == usize::MAX || fds.get(*t).map_or(false, |fd| fd_readable(*fd, 0))).collect()
+        let Some(v) = verif::accept_view() else { return vec![] };
+        let epfd = v.epoll_fd;
+        let mut evs: [libc::epoll_event; 16] = unsafe { std::mem::zeroed() };
+        let n = unsafe { libc::epoll_wait(epfd, evs.as_mut_ptr(), 16, 0) };
+        if n <= 0 {
+            return vec![];
+        }
+        let regs = epoll_registrations(epfd);
+        let mut out = vec![];
+        for e in &evs[..n as usize] {
+            let data = e.u64;
+            out.push(data as usize);
+            if let Some((fd, mask)) = regs.iter().find(|(_, _, d)| *d == data).map(|(fd, m, _)| (*fd, *m)) {
+                let mut ev = libc::epoll_event { events: mask, u64: data };
+                unsafe { libc::epoll_ctl(epfd, libc::EPOLL_CTL_MOD, fd, &mut ev) };
+            } else {
+                self.rec(Rec::Machinery(format!("pending epoll event with data {data:#x} has no registration in fdinfo")));
+            }
+        }
+        out
     }
 
     pub fn take_points(&self) -> Vec<Point> {
@@ -604,6 +645,11 @@ impl World {
             Some(v) => fd_readable(v.epoll_fd, 0),
             None => false,
         }
+    }
+
+    /// Sanity link between the two probes: the epoll fd is readable iff a token is pending.
+    pub fn probes_agree(&self) -> bool {
+        self.epoll_ready() == !self.edges().is_empty()
     }
 
     pub fn accept_timer_expired(&self) -> bool {
@@ -679,7 +725,7 @@ impl World {
                         for (i, fd) in v.listener_fds.iter().enumerate() {
                             let newly = before_reg.get(i) == Some(&false) || rereg.get(i) == Some(&true);
                             if after.get(i) == Some(&true) && newly && fd_readable(*fd, 0) {
-                                self.edges.borrow_mut().insert(i);
+                                self.add_edge(i);
                             }
                         }
                     }
@@ -881,7 +927,7 @@ impl Sys {
             cmds: RefCell::new(vec![]),
             points: RefCell::new(vec![]),
             plan: RefCell::new(None),
-            edges: RefCell::new(BTreeSet::new()),
+            edges: RefCell::new(Vec::new()),
             accept_dead: Cell::new(false),
             last_accept_turn: Cell::new(None),
             start: Cell::new(None),
@@ -1055,7 +1101,7 @@ impl Sys {
                         w.rec(Rec::Machinery("connection not visible on the listener within 2 s".into()));
                     }
                     if w.listener_registered().get(l) == Some(&true) {
-                        w.edges.borrow_mut().insert(l);
+                        w.add_edge(l);
                     }
                 }
             }
@@ -1068,7 +1114,7 @@ impl Sys {
     }
 
     pub fn note_wake_edge(&self) {
-        self.w.edges.borrow_mut().insert(usize::MAX);
+        self.w.add_edge(usize::MAX);
     }
 }
 
